@@ -257,7 +257,7 @@ def run_case(case):
         orig, tap = capture('nonMarkov_directed_percolate_network_with_timing')
         sim.nonMarkov_directed_percolate_network_with_timing = tap
         try:
-            got = EoN.estimate_nonMarkov_SIR_prob_size_with_timing(G, lambda u, v, a: delay[(u, v)], lambda u, b: dur[u], ('a',), ('b',))
+            got = EoN.estimate_nonMarkov_SIR_prob_size_with_timing(G, lambda u, v, a: delay[(u, v)] if a == 'a' else 1e9, lambda u, b, c: dur[u] if (b, c) == ('b', 'c') else -1.0, ('a',), ('b', 'c'))       # each rule sees its own extra arguments
         except Exception as e:
             viol(res, 'estimate_nonMarkov_SIR_prob_size_with_timing|exception:%s' % simcase.exc_key(e), {'err': repr(e)})
             return res
